@@ -56,6 +56,7 @@ class CustomFieldsGenerator:
         convert_to_snake_case: bool = True,
         custom_scalars: Optional[Dict[str, ScalarData]] = None,
         plugin_manager: Optional[PluginManager] = None,
+        input_types_module_name: str = "input_types",
     ) -> None:
         self.schema = schema
         self.convert_to_snake_case = convert_to_snake_case
@@ -78,6 +79,7 @@ class CustomFieldsGenerator:
             self.custom_scalars,
             self.convert_to_snake_case,
             self.plugin_manager,
+            input_types_module_name=input_types_module_name,
         )
         self._class_defs: List[ast.ClassDef] = self._parse_object_type_definitions(
             TypeCollector(self.schema).collect()
